@@ -8,7 +8,7 @@ import re
 from ..core import Checker, Rule, attr_calls, callee_is, calls_in, kwarg, resolved_calls, short
 from ..interp import Pins, find_nodes, unparse
 from ..model import AnalysisError
-from .util import inline_displays, effect_table, enclosing_loop, enclosing_stmt, enum_members, every_iteration_reaches, fmt, is_const, parent, returns_of
+from .util import inline_displays, effect_table, enclosing_loop, enclosing_stmt, enum_members, every_iteration_reaches, fmt, is_const, parent, returns_of, same
 
 P = ("C11", "C01", "C06")
 CLS = "symmetry:SymmetryTranslator"
@@ -178,7 +178,7 @@ def r_crosscheck(ck: Checker) -> None:
            "hiding more literals would overlook a use of the compared variables")
     lits_init = [n for n in find_nodes(func.node, lambda n: isinstance(n, (ast.Assign, ast.AnnAssign))) if unparse(getattr(n, "target", None) or n.targets[0]) == "lits"]  # type: ignore[attr-defined]
     inits = {unparse(n.value) for n in lits_init}  # type: ignore[attr-defined]
-    ok = f"list({params[4]})" in inits and all(i == f"list({params[4]})" or i.replace(" ", "") == "[xforxinlitsifxnotinneq_lits]" for i in inits)
+    ok = f"list({params[4]})" in inits and all(i == f"list({params[4]})" or same(i, "[x for x in lits if x not in neq_lits]") for i in inits)
     ck.add("visible literals start from the whole scope", ok, func, func.node, f"lits assigned from {sorted(inits)}", "")
 
 
